@@ -114,6 +114,11 @@ def find_depending_unit(res):
         def sym_deepcopy(self, ex_):
             return RCObj(self.term)
 
+        def sym_method(self, ex_, name, args, kw):
+            if name == "items" and not args:
+                return [("<whole table>", RCObj(self.term))]  # (the code copies the table entry by entry: the copy is the same table value)
+            raise Unsupported("register-change table." + name)
+
     def update_changes(ex_, so, a, kw):
         iform = a[0]
         table = a[1] if len(a) > 1 else kw.get("reg_state")
@@ -130,6 +135,8 @@ def find_depending_unit(res):
 
     def rc_of(a, kw):
         t = a[2] if len(a) > 2 else kw.get("register_changes")
+        if isinstance(t, dict) and set(t) == {"<whole table>"} and isinstance(t["<whole table>"], RCObj):
+            t = t["<whole table>"]  # entry-wise copy of the table
         return t.term if isinstance(t, RCObj) else rc_empty
     def rel(f):
         def g(ex_, so, a, kw):
@@ -204,6 +211,8 @@ def find_depending_unit(res):
     # inner loop invariant: the table in hand is the specified one for this position
     def inner_inv(ex_, env, k):
         t = env.get("register_changes")
+        if isinstance(t, dict) and not t:  # no table is kept for register / flag destinations (it is only needed for stored locations)
+            return z3.Not(H.ismem(env["dst"].t))
         return t.term == DONE(k) if isinstance(t, RCObj) else z3.BoolVal(False)
 
     ex.invariants[("find_depending", 1)] = inner_inv
